@@ -649,6 +649,27 @@ class SymChar:
         return getattr(self.s(), name)
 
 
+_CLASS_RANGES = {}
+
+
+def char_class_ranges(name):
+    """[(lo, hi)] of the code points c with getattr(chr(c), name)()"""
+    r = _CLASS_RANGES.get(name)
+    if r is None:
+        r, start, f = [], None, getattr(str, name)
+        for cp in range(0x110000):
+            if f(chr(cp)):
+                if start is None:
+                    start = cp
+            elif start is not None:
+                r.append((start, cp - 1))
+                start = None
+        if start is not None:
+            r.append((start, 0x10FFFF))
+        _CLASS_RANGES[name] = r
+    return r
+
+
 def _els(o):
     if isinstance(o, SymStr):
         return o.els
@@ -931,8 +952,27 @@ class SymStr:
     def upper(self): return self._map_case(True)
     def lower(self): return self._map_case(False)
 
-    def isdigit(self):
-        return str(self).isdigit()
+    def _char_class(self, name):
+        """str.isdigit & co on symbolic characters: membership of the code point in the ranges of the class
+        (computed from this interpreter's Unicode tables, cached); a fork per symbolic character"""
+        if not self.els:
+            return False
+        for c in self.els:
+            if isinstance(c, str):
+                if not getattr(c, name)():
+                    return False
+            else:
+                rs = char_class_ranges(name)
+                cond = z3.Or([(c.t == a) if a == b else z3.And(c.t >= a, c.t <= b) for a, b in rs])
+                if not bool(_mkb(cond)):
+                    return False
+        return True
+
+    def isdigit(self): return self._char_class("isdigit")
+    def isdecimal(self): return self._char_class("isdecimal")
+    def isnumeric(self): return self._char_class("isnumeric")
+    def isalpha(self): return self._char_class("isalpha")
+    def isalnum(self): return self._char_class("isalnum")
 
     def conc(self):
         return "".join(e if isinstance(e, str) else str(e) for e in self.els)
